@@ -68,6 +68,28 @@ def run(ctx):
         if xa != xb:
             pfam.report(ctx, "dialect-not-honoured:" + d, {"kind": "input", "entry": "parse_statements", "dialect": d, "input": a, "plain": b, "observed": [xa[:300], xb[:300]],
                                                           "oracle": "c13: the dialect form must parse like the plain form at every nesting depth", "how_found": "stream nested"})
+    # … at EVERY recursive position of the grammar: tree-first Hive statements (every production) printed with NOT / =, rewritten to the Hive spellings
+    from props import c09
+    hive_texts = [t for _, t in pfam.tree_texts(ctx.rng.fork("hive-trees"), 500 if ctx.quick else 4000, ["HIVE"])]
+    not_re = re.compile(r"(?<!IS )\bNOT (?!(?:IN|LIKE|RLIKE|REGEXP|BETWEEN)\b)")
+    hv = []
+    for t in hive_texts:
+        if t.lstrip().upper().startswith(("CREATE", "ALTER", "DROP", "ANALYZE")):
+            continue        # NOT NULL / IF NOT EXISTS of DDL are not the logical operator
+        segs = c09.segments(t)
+        v1 = "".join(not_re.sub("! ", piece) if code else piece for code, piece in segs)
+        v2 = "".join(piece.replace(" = ", " == ") if code else piece for code, piece in segs)
+        for v in (v1, v2):
+            if v != t:
+                hv.append((t, v))
+    rh, _ = ctx.corr([pfam.req_parse("HIVE", t) for t, _ in hv], stream="hive-plain")
+    rv, _ = ctx.corr([pfam.req_parse("HIVE", v) for _, v in hv], stream="hive-spelled")
+    for (t, v), (_, xa, _), (_, xb, _) in zip(hv, rh, rv):
+        ok = xa == xb and xa.startswith("OK")
+        ctx.count("hive-everywhere:" + ("equal" if ok else "DIFFERENT" if xa != xb else "both-rejected"))
+        if xa != xb:
+            pfam.report(ctx, "dialect-not-honoured:HIVE", {"kind": "input", "entry": "parse_statements", "dialect": "HIVE", "input": v, "plain": t, "observed": [xb[:300], xa[:300]],
+                                                           "oracle": "c13: `!` / `==` must parse like NOT / = at every position of the grammar", "how_found": "stream tree-first hive"})
     # the other dialects must NOT give `!` the Hive meaning: under MYSQL `! a = b` is a unary operator, never a logical NOT node
     others = [(d, "SELECT a FROM t WHERE ! a = b") for d in pfam.DIALECTS if d != "HIVE"]
     ro, _ = ctx.corr([pfam.req_parse(d, t) for d, t in others], stream="non-hive-bang")
